@@ -126,6 +126,44 @@ def run_bounded(chk):
         if d.max() > r * (1 + 1e-9) or abs(best - r) > 1e-6 * r:
             fails.append((f"{pname}/minimal_bounding_circle", {"points": P.tolist(), "centre": c.tolist(), "radius": r,
                                                                "farthest": float(d.max()), "smallest_enclosing_radius": best}))
+    # miniball is randomised (random pivots, random retry rotations): degenerate supports (cospherical and coplanar vertex
+    # sets, rotated off the axes) are queried repeatedly.  The defects fixed in 93001f4 / f022c2d showed up in 1 - 50 % of the calls.
+    reps = 25 if chk.bounded_tier == "quick" else 200
+    th = 0.7
+    Rz = np.array([[np.cos(th), -np.sin(th), 0], [np.sin(th), np.cos(th), 0], [0, 0, 1.0]])
+    Rx = np.array([[1.0, 0, 0], [0, np.cos(1.1), -np.sin(1.1)], [0, np.sin(1.1), np.cos(1.1)]])
+    Rt = Rz @ Rx
+    gold = (1 + 5 ** 0.5) / 2
+    dodeca = [[sx, sy, sz] for sx in (-1.0, 1) for sy in (-1.0, 1) for sz in (-1.0, 1)]
+    for a, b in ((1 / gold, gold),):
+        for s1 in (-1, 1):
+            for s2 in (-1, 1):
+                dodeca += [[0.0, s1 * a, s2 * b], [s1 * a, s2 * b, 0.0], [s1 * b, 0.0, s2 * a]]
+    repeated = [("square_pyramid", "ConvexPolyhedron", np.array([[0.0, 0, 0], [2, 0, 0], [2, 2, 0], [0, 2, 0], [0.5, 0.75, 3]]), None),
+                ("dodecahedron", "ConvexPolyhedron", np.array(dodeca), 3 ** 0.5)]
+    for nsides in (24, 120):
+        ang = np.linspace(0, 2 * np.pi, nsides, endpoint=False)
+        repeated.append((f"regular{nsides}", "Polygon", np.c_[np.cos(ang), np.sin(ang), 0 * ang], 1.0))
+    for name, klass, P0, rad in repeated:
+        for sc in (1e-3, 1.0, 1e3):
+            P = (P0 @ Rt.T + np.array([10.0, -20.0, 30.0])) * sc
+            want = rad * sc if rad is not None else _brute_min_ball(P)
+            member = "minimal_bounding_circle" if klass == "Polygon" else "minimal_bounding_sphere"
+            bad = None
+            for rep in range(reps):
+                n_eval += 1
+                try:
+                    b = getattr(getattr(cox.shapes, klass)(P), member)
+                except Exception as e:  # noqa: BLE001
+                    bad = {"raised": f"{type(e).__name__}: {e}"[:160], "call": rep}
+                    break
+                c, r = np.asarray(b.centroid, float).reshape(-1), float(b.radius)
+                far = float(np.linalg.norm(P - c, axis=1).max()) if c.shape == (3,) else float("inf")
+                if abs(r - want) > 1e-7 * want or far > r * (1 + 1e-8):
+                    bad = {"radius": r, "centre": c.tolist(), "smallest_enclosing_radius": want, "farthest_vertex": far, "call": rep}
+                    break
+            if bad:
+                fails.append((f"{klass}:{name}/rotated+offset/s={sc:g}/{member}/repeated", {"points": P.tolist(), "member": member, **bad}))
     for name, info in fails[:5]:
         chk.record(f"bounded:balls[{name}]", fkey, "bounded-fail", "definition-check", detail=str(info)[:500], model={}, kind="bounded",
                    replay=lambda m, info=info, name=name: (True, {"case": name, **info}))
@@ -134,7 +172,7 @@ def run_bounded(chk):
     chk.bounded.append({"clause": "a circum-/in-ball is returned exactly when one exists and then touches every vertex / face; minimal bounding "
                                   "balls contain every vertex and equal the brute-force smallest enclosing ball; centred balls match their definition",
                         "bound": "10 cyclic/tangential/generic polyhedra and polygons x scales {1e-3,1e-2,1,1e2,1e3} x 4 placements; "
-                                 "6 (quick) named convex solids, 2 obtuse tetrahedra and 9 polygons (incl. obtuse / right triangles and slivers whose ball is spanned by 2 points; Polygon and ConvexPolygon) for the miniball clauses (brute force over support sets of 2-4 points)",
+                                 "6 (quick) named convex solids, 2 obtuse tetrahedra and 9 polygons (incl. obtuse / right triangles and slivers whose ball is spanned by 2 points; Polygon and ConvexPolygon) for the miniball clauses (brute force over support sets of 2-4 points); square pyramid, dodecahedron, regular 24- and 120-gon rotated off the axes at scales {1e-3,1,1e3}, each queried 25 (quick) / 200 times because miniball is randomised",
                         "evaluations": n_eval, "distinct_nontrivial": n_eval, "rule": "distinct = (shape, scale, placement, member)",
                         "samples": [{"shape": "box", "scale": 0.01, "member": "circumsphere", "exists": True}],
                         "failures": len(fails), "exhaustive": False})
